@@ -95,24 +95,37 @@ func vAssert(c bool, id string) {
 	}
 }
 
-func vReach(id string)          { vReachedIDs[id] = true }
-func vClassify(k, v string)     { vClasses[k] = v }
-func vAnd(a, b bool) bool       { return a && b }
-func vOr(a, b bool) bool        { return a || b }
-func vNot(a bool) bool          { return !a }
-func vImplies(a, b bool) bool   { return !a || b }
-func vConcrete(x int) int       { return x }
-func vEngine() bool             { return false }
-func vEqStr(a, b string) bool   { return a == b }
-func vGhostSettle()             { time.Sleep(20 * time.Millisecond) }
-func vGhostPoolMode(mode int)   {}
-func vGhostExplore(preempt int) {}
-func vGhostExploreOff()         {}
-func vGhostAllocReset()         {}
-func vGhostTrackAllocs()        {}
-func vGhostAsmOOB() int         { return 0 }
-func vGhostPoolViolations() int { return 0 }
-func vGhostAllocMax() int       { return 0 }
+func vReach(id string) { vReachedIDs[id] = true }
+
+// vAssertGhost states an obligation over engine-side ghost state (pool monitor); natively there is nothing to observe.
+func vAssertGhost(c bool, id string) {}
+func vClassify(k, v string)          { vClasses[k] = v }
+func vAnd(a, b bool) bool            { return a && b }
+func vOr(a, b bool) bool             { return a || b }
+func vNot(a bool) bool               { return !a }
+func vImplies(a, b bool) bool        { return !a || b }
+func vConcrete(x int) int            { return x }
+func vEngine() bool                  { return false }
+func vEqStr(a, b string) bool        { return a == b }
+func vGhostSettle()                  { time.Sleep(20 * time.Millisecond) }
+func vGhostPoolMode(mode int)        {}
+func vGhostExplore(preempt int)      {}
+func vGhostExploreOff()              {}
+func vGhostAllocReset()              { runtime.ReadMemStats(&vMemBefore) }
+func vGhostTrackAllocs()             {}
+
+// vGhostAllocGuard: from now on a library allocation whose size is chosen by symbolic input and can exceed bound is
+// reported at once as a violation of obligation id (natively the obligation is checked through runtime.MemStats).
+func vGhostAllocGuard(id string, bound int) {}
+func vGhostAsmOOB() int                     { return 0 }
+func vGhostPoolViolations() int             { return 0 }
+func vGhostAllocMax() int {
+	var ms runtime.MemStats
+	runtime.ReadMemStats(&ms)
+	return int(ms.TotalAlloc - vMemBefore.TotalAlloc)
+}
+
+var vMemBefore runtime.MemStats
 
 func vIteU8(c bool, a, b uint8) uint8 {
 	if c {
